@@ -56,12 +56,50 @@ fn to_primitive_number(value: &Value) -> Option<f64> {
     }
 }
 
+/// White space as stripped by JavaScript's string-to-number conversion
+/// (WhiteSpace and LineTerminator of ECMA-262).
+fn is_js_whitespace(c: char) -> bool {
+    match c {
+        '\u{9}'..='\u{D}' | ' ' | '\u{A0}' | '\u{1680}' | '\u{2000}'..='\u{200A}' => true,
+        '\u{2028}' | '\u{2029}' | '\u{202F}' | '\u{205F}' | '\u{3000}' | '\u{FEFF}' => true,
+        _ => false,
+    }
+}
+
+/// Convert a string to a number the way JavaScript's `Number(string)` does:
+/// surrounding white space is ignored, the empty string is 0, `0x` / `0o` /
+/// `0b` literals are honoured, only `Infinity` (with optional sign) is
+/// infinite, and anything that is not a complete decimal literal is not
+/// a number (`None`).
 pub fn str_to_number<S: AsRef<str>>(string: S) -> Option<f64> {
-    let s = string.as_ref();
+    let s = string.as_ref().trim_matches(is_js_whitespace);
     if s == "" {
-        Some(0.0)
-    } else {
-        f64::from_str(s).ok()
+        return Some(0.0);
+    }
+    let radix = match s.get(..2) {
+        Some("0x") | Some("0X") => Some(16),
+        Some("0o") | Some("0O") => Some(8),
+        Some("0b") | Some("0B") => Some(2),
+        _ => None,
+    };
+    if let Some(radix) = radix {
+        let digits = &s[2..];
+        if digits == "" {
+            return None;
+        }
+        return digits.chars().fold(Some(0.0), |acc, c| {
+            Some(acc? * (radix as f64) + (c.to_digit(radix)? as f64))
+        });
+    }
+    match s {
+        "Infinity" | "+Infinity" => Some(f64::INFINITY),
+        "-Infinity" => Some(f64::NEG_INFINITY),
+        // `f64::from_str` also accepts "inf", "infinity" and "nan" in any
+        // case, which are not numbers in JavaScript.
+        _ if s.chars().all(|c| c.is_ascii_digit() || ".eE+-".contains(c)) => {
+            f64::from_str(s).ok()
+        }
+        _ => None,
     }
 }
 
